@@ -2,5 +2,10 @@ import WpModel.Drive.Loop
 import WpModel.Drive.Table
 import WpModel.Drive.Borders
 import WpModel.Drive.TableRows
+import WpModel.Drive.TablePages
+import WpModel.Drive.TablePreferred
+import WpModel.Drive.TableRowHeights
 
-def main : IO Unit := Wp.Drive.runDriver [Wp.Drive.Table.handle, Wp.Drive.Borders.handle, Wp.Drive.TableRows.handle]
+def main : IO Unit := Wp.Drive.runDriver
+  [Wp.Drive.Table.handle, Wp.Drive.Borders.handle, Wp.Drive.TableRows.handle, Wp.Drive.TablePages.handle,
+   Wp.Drive.TablePref.handle, Wp.Drive.RowHeights.handle]
